@@ -17,12 +17,15 @@ ASSUMPTIONS = ['the link from fetch/execute to the client steps rests on trace a
 
 def ties(ctx):
     n = 800 if ctx.tier == 'quick' else 20000
-    return [run_conc(ctx, 'c16', 'shuttle', n, drivers=('dg',)), run_conc(ctx, 'c16', 'threads', n, seed_offset=1)]
+    return [run_conc(ctx, 'c16', 'shuttle', n, drivers=('dg',)), run_conc(ctx, 'c16', 'threads', n, seed_offset=1),
+            # readers after a history: rounds of concurrent requests separated by sequential writes, so that threads block
+            # on each other inside VALIDATION (maybe_changed_after), not only inside first executions
+            run_conc(ctx, 'c17', 'shuttle', max(200, n // 2), seed_offset=2)]
 
 def search(ctx, reason):
     t = run_conc(ctx, 'c16', 'shuttle', 20000, seed_offset=54)
     for f in t.failures:
-        if f.kind == 'oracle':
+        if f.kind == 'oracle' and f.key not in listed_keys():
             return f
     return None
 
